@@ -614,6 +614,14 @@ func (f *FA) lf0(v ssa.Value) LF {
 			case "cap":
 				return f.atomLF("v:"+v.Name(), f.vname(v), 0, f.maxLen)
 			case "copy":
+				// copy returns min(len(dst), len(src)); when one is never longer than the other it is that length
+				d, sl := f.SliceLen(x.Call.Args[0]), f.SliceLen(x.Call.Args[1])
+				if lo, _ := f.bounds(d.add(sl, -1), nil); lo >= 0 {
+					return sl
+				}
+				if lo, _ := f.bounds(sl.add(d, -1), nil); lo >= 0 {
+					return d
+				}
 				return f.atomLF("v:"+v.Name(), f.vname(v), 0, f.maxLen)
 			}
 		}
